@@ -1,6 +1,10 @@
 (* C08 - proofs about Digest/Envelope.v with doc := content.
-   canon_norm / canon_inj are C07's theorems about canonical JSON, taken here as Section hypotheses
-   (they become premises of every closed statement).  Nothing is assumed of H. *)
+   The lemmas `..._at` take what they need of the canonicaliser for the two documents involved only
+   (same content -> same bytes, resp. same bytes -> same content): that is all their proofs use.
+   The lemmas without suffix are the same statements under the global hypotheses canon_norm /
+   canon_inj (Section hypotheses: premises of the closed statements), derived from the `_at` forms;
+   Digest/LinkProofs.v discharges the pointwise premises for the real canonicaliser.
+   Nothing is assumed of H. *)
 From Coq Require Import List Bool Strings.Byte Lia.
 From Verif Require Import Base.Wire Digest.Content Digest.Envelope Digest.Regime.
 Import ListNotations.
@@ -60,47 +64,89 @@ Section Proofs.
   Qed.
 
   (* 2. a content-preserving re-encoding of the document keeps the envelope valid *)
+  Lemma reencoding_preserves_validity_at e d' :
+    canon d' = canon (e_doc e) ->
+    structural (with_doc e d') = structural e ->
+    validate e = Valid -> validate (with_doc e d') = Valid.
+  Proof.
+    intros CE S V. apply validate_ok_iff in V. destruct V as [S1 D1].
+    apply validate_ok_iff. rewrite S. split; [exact S1|]. cbn. rewrite D1.
+    unfold Envelope.digest_of. rewrite CE. reflexivity.
+  Qed.
+
   Lemma reencoding_preserves_validity e d' :
     wf (e_doc e) -> wf d' -> norm d' = norm (e_doc e) ->
     structural (with_doc e d') = structural e ->
     validate e = Valid -> validate (with_doc e d') = Valid.
   Proof.
-    intros W W' N S V. apply validate_ok_iff in V. destruct V as [S1 D1].
-    apply validate_ok_iff. rewrite S. split; [exact S1|]. cbn. rewrite D1.
-    unfold Envelope.digest_of. rewrite (canon_respects d' (e_doc e) W' W N). reflexivity.
+    intros W W' N. apply reencoding_preserves_validity_at. exact (canon_respects d' (e_doc e) W' W N).
   Qed.
 
   (* 3. undetected tampering is a collision of H on two explicit, distinct byte strings *)
+  Lemma digest_tamper_evident_at e d' :
+    (canon (e_doc e) = canon d' -> norm d' = norm (e_doc e)) ->
+    validate e = Valid -> validate (with_doc e d') = Valid ->
+    norm d' = norm (e_doc e) \/
+    (canon (e_doc e) <> canon d' /\ H (canon (e_doc e)) = H (canon d')).
+  Proof.
+    intros CI V V'. apply validate_ok_iff in V. apply validate_ok_iff in V'.
+    destruct V as [_ D], V' as [_ D']. cbn in D'. rewrite D in D'. injection D' as D'.
+    destruct (list_eq_dec Byte.byte_eq_dec (canon (e_doc e)) (canon d')) as [E|NE].
+    - left. apply CI. exact E.
+    - right. split; assumption.
+  Qed.
+
   Lemma digest_tamper_evident e d' :
     wf (e_doc e) -> wf d' ->
     validate e = Valid -> validate (with_doc e d') = Valid ->
     norm d' = norm (e_doc e) \/
     (canon (e_doc e) <> canon d' /\ H (canon (e_doc e)) = H (canon d')).
   Proof.
-    intros W W' V V'. apply validate_ok_iff in V. apply validate_ok_iff in V'.
-    destruct V as [_ D], V' as [_ D']. cbn in D'. rewrite D in D'. injection D' as D'.
-    destruct (list_eq_dec Byte.byte_eq_dec (canon (e_doc e)) (canon d')) as [E|NE].
-    - left. symmetry. apply canon_inj; auto.
-    - right. split; assumption.
+    intros W W'. apply digest_tamper_evident_at. intro E. symmetry. apply canon_inj; auto.
   Qed.
 
   (* 3'. the same, read forwards: changed content, no collision => rejected; and rejected with the
      digest error when the changed envelope is structurally fine *)
+  Lemma tampered_is_rejected_at e d' :
+    (canon (e_doc e) = canon d' -> norm d' = norm (e_doc e)) ->
+    validate e = Valid ->
+    norm d' <> norm (e_doc e) -> H (canon (e_doc e)) <> H (canon d') ->
+    validate (with_doc e d') <> Valid /\
+    (structural (with_doc e d') = true -> validate (with_doc e d') = ErrDigest).
+  Proof.
+    intros CI V N NH.
+    assert (NV : validate (with_doc e d') <> Valid).
+    { intro V'. destruct (digest_tamper_evident_at e d' CI V V') as [X|[_ X]]; contradiction. }
+    split; [exact NV|]. intro S. revert NV. unfold Envelope.validate. rewrite S. cbn.
+    apply validate_ok_iff in V. destruct V as [_ D]. rewrite D.
+    destruct (dig_equals _ _); [intro X; exfalso; apply X; reflexivity | reflexivity].
+  Qed.
+
   Lemma tampered_is_rejected e d' :
     wf (e_doc e) -> wf d' -> validate e = Valid ->
     norm d' <> norm (e_doc e) -> H (canon (e_doc e)) <> H (canon d') ->
     validate (with_doc e d') <> Valid /\
     (structural (with_doc e d') = true -> validate (with_doc e d') = ErrDigest).
   Proof.
-    intros W W' V N NH.
-    assert (NV : validate (with_doc e d') <> Valid).
-    { intro V'. destruct (digest_tamper_evident e d' W W' V V') as [X|[_ X]]; contradiction. }
-    split; [exact NV|]. intro S. revert NV. unfold Envelope.validate. rewrite S. cbn.
-    apply validate_ok_iff in V. destruct V as [_ D]. rewrite D.
-    destruct (dig_equals _ _); [intro X; exfalso; apply X; reflexivity | reflexivity].
+    intros W W'. apply tampered_is_rejected_at. intro E. symmetry. apply canon_inj; auto.
   Qed.
 
   (* 4. recalculating a changed document changes the digest, or exhibits a collision *)
+  Lemma recalculated_digest_differs_at e d' e1 :
+    (canon (e_doc e) = canon (e_doc e1) -> norm (e_doc e1) = norm (e_doc e)) ->
+    validate e = Valid -> calculate (with_doc e d') = Some e1 ->
+    norm (e_doc e1) <> norm (e_doc e) ->
+    e_dig e1 <> e_dig e \/
+    (canon (e_doc e) <> canon (e_doc e1) /\ H (canon (e_doc e)) = H (canon (e_doc e1))).
+  Proof.
+    intros CI V C N. apply validate_ok_iff in V. destruct V as [_ D].
+    unfold Envelope.calculate in C. cbn in C. destruct (calc_doc d') as [d1|]; [|discriminate].
+    injection C as C. subst e1. cbn in *. rewrite D.
+    destruct (list_eq_dec Byte.byte_eq_dec (H (canon (e_doc e))) (H (canon d1))) as [E|NE].
+    - right. split; [|exact E]. intro E'. apply N. apply CI. exact E'.
+    - left. intro X. injection X as X. apply NE. symmetry. exact X.
+  Qed.
+
   Lemma recalculated_digest_differs e d' e1 :
     wf (e_doc e) -> wf (e_doc e1) ->
     validate e = Valid -> calculate (with_doc e d') = Some e1 ->
@@ -108,12 +154,7 @@ Section Proofs.
     e_dig e1 <> e_dig e \/
     (canon (e_doc e) <> canon (e_doc e1) /\ H (canon (e_doc e)) = H (canon (e_doc e1))).
   Proof.
-    intros W W1 V C N. apply validate_ok_iff in V. destruct V as [_ D].
-    unfold Envelope.calculate in C. cbn in C. destruct (calc_doc d') as [d1|]; [|discriminate].
-    injection C as C. subst e1. cbn in *. rewrite D.
-    destruct (list_eq_dec Byte.byte_eq_dec (H (canon (e_doc e))) (H (canon d1))) as [E|NE].
-    - right. split; [|exact E]. intro E'. apply N. symmetry. apply canon_inj; auto.
-    - left. intro X. injection X as X. apply NE. symmetry. exact X.
+    intros W W1. apply recalculated_digest_differs_at. intro E. symmetry. apply canon_inj; auto.
   Qed.
 
   (* and a recalculated envelope carries the digest of its own (recalculated) document *)
